@@ -444,6 +444,58 @@ def verbPp (f : List (List Nat)) : List Nat :=
   | .ok out => str "ok " ++ hexOf out
   | .error c => str "fail " ++ natStr c
 
+/-! ### diag -/
+
+def sigToks (ts : List Sqf.Token) : List Sqf.Token :=
+  ts.filter (fun t => t.kind != .whitespace && t.kind != .mLine && t.kind != .commentLine && t.kind != .commentBlock)
+
+def posOf (t : Sqf.Token) : List Nat := natStr t.line ++ [58] ++ natStr t.col ++ [58] ++ t.file
+
+/-- first token `t` (with its successor `n` and predecessor `p`) that satisfies `q p t n` -/
+def findTok (q : Option Sqf.Token → Sqf.Token → Option Sqf.Token → Bool) : Option Sqf.Token → List Sqf.Token → Option Sqf.Token
+  | _, [] => none
+  | p, t :: rest => if q p t rest.head? then some t else findTok q (some t) rest
+
+/-- the reference expander followed by the tokenizer model: where does the fault token of the case stand? -/
+def verbDiag (f : List (List Nat)) : List Nat :=
+  let text := (f[0]?).getD []
+  let files : List (List Nat × List Nat) := match f[1]? with
+    | some fs => if fs.isEmpty then [] else (splitOn1 fs).map (fun e =>
+        let kv := splitOn2 e
+        ([47] ++ kv.headD [], (kv[1]?).getD []))
+    | none => []
+  let kind := (f[3]?).getD []
+  let phys := str "/$R/main.sqf"
+  let pre : Except Nat (List Nat) :=
+    if (f[2]?).getD [] == str "raw" then .ok text else Sqf.Pp.run { files := files, root := str "/$R" } Sqf.Pp.builtins text
+  match pre with
+  | .error c => str "pp-fail " ++ natStr c
+  | .ok out =>
+    let toks := sigToks (Sqf.lexAll (out.length + 1) (Sqf.LState.init out phys))
+    let isPlusA := fun (_ : Option Sqf.Token) (t : Sqf.Token) (n : Option Sqf.Token) =>
+      t.kind == .operator && t.text == [43] && (match n with | some x => x.kind == .stringDouble && x.text == [34, 97, 34] | none => false)
+    if kind == str "undefined" then
+      match findTok (fun _ t _ => t.kind == .ident && t.text.take 6 == str "FAULT_") none toks with
+      | some t => posOf t
+      | none => str "no-token"
+    else if kind == str "runtime" || kind == str "trace" then
+      match findTok isPlusA none toks with
+      | some t => posOf t
+      | none => str "no-token"
+    else if kind == str "parse" then
+      match findTok (fun p t _ => t.kind == .semicolon && (match p with | some x => x.kind == .operator && x.text == [43] | none => false)) none toks with
+      | some t => posOf t
+      | none => str "no-token"
+    else if kind == str "line" then
+      -- gl = [ <number> , <string> ]
+      let rec go : List Sqf.Token → List Nat
+        | a :: b :: c :: d :: e :: g :: rest =>
+          if a.kind == .ident && a.text == str "gl" && b.kind == .equal && c.kind == .edgeO && d.kind == .number && g.kind == .stringDouble
+          then str "gl=[" ++ d.text ++ [44] ++ g.text ++ [93] else go (b :: c :: d :: e :: g :: rest)
+        | _ => str "no-token"
+      go toks
+    else str "bad-kind"
+
 def handle (e : Env) (verb : String) (f : List (List Nat)) : List Nat :=
   if verb == "asm" then verbAsm e f
   else if verb == "lex" then verbLex f
@@ -458,6 +510,7 @@ def handle (e : Env) (verb : String) (f : List (List Nat)) : List Nat :=
   else if verb == "pbo" then verbPbo f
   else if verb == "vfs" then verbVfs f
   else if verb == "pp" then verbPp f
+  else if verb == "diag" then verbDiag f
   else str "bad-verb"
 
 partial def loop (e : Env) (h : IO.FS.Stream) (out : IO.FS.Stream) : IO Unit := do
